@@ -10,7 +10,7 @@ BUILTINS = {"len", "max", "min", "abs", "int", "float", "bool", "list", "tuple",
             "enumerate", "any", "all", "hash", "id", "set", "isinstance", "tqdm", "sum", "zip", "str", "super",
             "dict", "print", "object"}
 
-SPEC_BUILTINS = {"forall_obj", "exp", "seq_is", "stim_name", "stim_targets", "stim_args", "stim_rargs", "dict_get", "dict_has", "same_seq", "set_same", "implies", "iff", "forall", "exists", "forall_int", "exists_int", "old", "typeis", "fresh",
+SPEC_BUILTINS = {"forall_obj", "forall_str", "exp", "seq_is", "stim_name", "stim_targets", "stim_args", "stim_rargs", "dict_get", "dict_has", "same_seq", "set_same", "implies", "iff", "forall", "exists", "forall_int", "exists_int", "old", "typeis", "fresh",
                  "is_none", "ite", "subseq", "seq_concat", "seq_unit", "seq_empty", "same_class", "born_before_entry",
                  "let"}
 
